@@ -215,7 +215,7 @@ class TFLiteSubgraph:
             if "depth_multiplier" in op.attrs:
                 op.attrs["channel_multiplier"] = op.attrs["depth_multiplier"]
 
-            if op_type == Op.DepthwiseConv2DBias and op.attrs["depth_multiplier"] == 0:
+            if op_type == Op.DepthwiseConv2DBias and op.attrs.get("depth_multiplier") == 0:
                 # The depth multiplier is implicit and is calculated as weight channels / ifm channels
                 # Note however that the weights have been reshaped above.
                 # The original value is cached above in channel_multiplier
